@@ -73,7 +73,10 @@ CHECKS["C34"] = _c("expansion of gogen's keyed-list helper templates over a froz
 CHECKS["C33"] = _c("expansion of gogen's PopulateDefaults/getter templates (standard library text/template over analyser-built leaf shapes) + the same per-method guard analysis over the 30 compiled PopulateDefaults methods; provenance analysis of Go literals in yangDefaultValueToGo; key-statement substring lint",
     "Decides that PopulateDefaults writes a leaf only under that leaf's unset test with a fresh default literal, writes exactly the defaulted leaves and descends into every child; that default literals are %q-quoted or parsed-then-raw and validated against the type's restrictions at generation; and that `key` statements are never searched by substring.")
 
-for _p in ["C26","C27","C29"]:
+CHECKS["C29"] = _c("purity/effect analysis of ygot's path resolution, expansion of ypathgen's constructor and key-builder templates (standard library text/template, analyser-built data), value-flow rule on the generator's key-map text, same-source rule for relative paths, key type tables",
+    "Decides that resolution caches nothing and renders names in order with every key through KeyValueAsString (ancestors first), that ModifyKey writes exactly the named key, that the generated constructor passes its receiver as parent with the generator's path list and key map, that every list constructor's key map has one entry per key (value or \"*\") with the empty form only for the all-wildcard non-builder case, and that path lists and GoStruct path tags derive from the same IR data.")
+
+for _p in ["C26","C27"]:
     NA[_p] = NOT_YET
 NA["C10"] = "quantifies over runtime trees, paths and payloads; its structural clauses (key and value tables) are decided under C16/C18 and the frame clause has no static handle here (DESIGN.md §7)"
 NA["C23"] = "classification of runtime leaves after single-leaf edits; no clause visible in code shape beyond those claimed under C22 (DESIGN.md §7)"
